@@ -1574,6 +1574,27 @@ class Totality:
                 ib = (lb[1], lb[1]) if lb[0] == "const" else a.get(st, lb)
                 if ia is not None and ib is not None and ia[0] == ia[1] == ib[0] == ib[1]:
                     return "same length by intervals"
+
+                def sym_len(lk, depth=4):
+                    # the length as `C - x`: `&a[x..]` of a C-long array, `&a[..k]` with k == C - x
+                    while depth > 0 and lk is not None and not (isinstance(lk, tuple) and lk[0] == "const"):
+                        depth -= 1
+                        sy = st.sym.get(lk)
+                        if sy is None and isinstance(lk, int) and lk in st.alias:
+                            lk = st.alias[lk]
+                            continue
+                        if sy is None:
+                            return None
+                        if sy[0] == "sub":
+                            return ("sub", sy[1], sy[2])
+                        if sy[0] == "same":
+                            lk = sy[2]
+                            continue
+                        return None
+                    return None
+                sa_, sb_ = sym_len(la), sym_len(lb)
+                if sa_ is not None and sa_ == sb_:
+                    return "same length: both are %d - %s" % (sa_[1], sa_[2])
             return None
         return None
 
